@@ -489,6 +489,9 @@ class CallMixin:
                 return [(st, self.new_object(st, 'builtins:object'))]
             if pc is str:
                 return [(st, VStr(fresh(STR, 'str')))]
+            if pc is range and 1 <= len(args) <= 2 and not kwargs and all(isinstance(a, (VInt, VBool)) for a in args):
+                lo = z3.IntVal(0) if len(args) == 1 else self.as_int(args[0], node)
+                return [(st, VFunc('range', lo=lo, hi=self.as_int(args[-1], node)))]
         ci = self.classinfo(key)
         if ci is None and pc is None:
             # exception classes of non importable modules
@@ -972,6 +975,8 @@ class CallMixin:
                 if c.ghost_exc is not None:
                     c.ghost_exc(self, s, env, cls)
                 self.raise_exc(s, self.resolve_class_name(info, cls))
+                if not c.verify and cls in ('Exception', 'BaseException'):
+                    s.exc[1].exact = False      # an assumed contract that names the root class: any subclass may be raised
                 outcomes.append((s, None))
         # normal outcome
         for cls, cond in c.raises.items():
